@@ -287,10 +287,16 @@ func declareTree(c *cli.Cmd, t *TCmd, path string, out *TreeOutcome, td *treeDec
 	}
 }
 
+// EmptyVersion as TreeCase.VersionStr stands for the empty version string ("" itself means the default VersionString).
+const EmptyVersion = "<empty>"
+
 // VersionString is printed by apps that declare a version.
 const VersionString = "9.8.7-qver"
 
 func (c *TreeCase) versionStr() string {
+	if c.VersionStr == EmptyVersion {
+		return "" // an application may well declare an empty version string (a build variable that was never injected)
+	}
 	if c.VersionStr != "" {
 		return c.VersionStr
 	}
@@ -977,7 +983,7 @@ func GenTreeCase(t *rapid.T, mode TreeGenMode) *TreeCase {
 	}
 	if !c.DeclaresVersion && chance(t, mode.Version, 16, "version") {
 		c.Version = rapid.SampledFrom([]string{"-V", "--qversion"}).Draw(t, "vflag")
-		c.VersionStr = rapid.SampledFrom([]string{"", "1.4.0 (100% qver compatible)", "%d-qver-%s%", "qver\t2"}).Draw(t, "vstr")
+		c.VersionStr = rapid.SampledFrom([]string{"", "1.4.0 (100% qver compatible)", "%d-qver-%s%", "qver\t2", EmptyVersion}).Draw(t, "vstr")
 	}
 	return c
 }
